@@ -12,6 +12,7 @@ use std::{
 use serde_json::{json, Value};
 
 mod evalcmd;
+mod fmtcmd;
 mod parsecmd;
 mod manifestcmd;
 mod numop;
@@ -78,6 +79,7 @@ fn main() {
 	match sub {
 		"eval" => run_lines(evalcmd::handle),
 		"parse" => run_lines(parsecmd::handle),
+		"fmt" => run_lines(fmtcmd::handle),
 		"manifest" => run_lines(manifestcmd::handle),
 		"numop" => run_lines(numop::handle),
 		"version" => println!("jrharness 1"),
